@@ -69,12 +69,14 @@ impl<C: Config> Drop for InputSession<C> {
         if self.comitted {
             return;
         }
+        crate::verif_point!("phase:w:drop", None, 0);
 
         let transaction = self.transaction.clone();
         let dirty_batch = self.dirty_batch.clone();
         let engine = self.engine.clone();
 
         tokio::spawn(async move {
+            crate::verif_pause!("phase:d:spawned", None);
             let Some((transaction, guard)) = transaction.write().await.take()
             else {
                 // the transaction has already been committed
@@ -85,6 +87,7 @@ impl<C: Config> Drop for InputSession<C> {
 
             Self::commit_internal(engine, dirty_batch, transaction).await;
 
+            crate::verif_point!("phase:c:release", None, 1);
             drop(guard);
         });
     }
@@ -97,15 +100,19 @@ impl<C: Config> InputSession<C> {
         let engine = self.engine.clone();
 
         async move {
+            crate::verif_pause!("in.commit.g.start", None);
             self.comitted = true;
+            crate::verif_point!("phase:c:begin", None, 0);
 
             let dirty_batch =
                 std::mem::take(&mut *self.dirty_batch.write().await);
             let (transaction, guard) =
                 self.transaction.write().await.take().unwrap();
+            crate::verif_pause!("in.commit.g.taken", None);
 
             Self::commit_internal(engine, dirty_batch, transaction).await;
 
+            crate::verif_point!("phase:c:release", None, 0);
             drop(guard);
         }
         .guarded()
@@ -123,8 +130,12 @@ impl<C: Config> InputSession<C> {
         transaction = engine
             .dirty_propagate_from_batch(dirty_batch.into_iter(), transaction)
             .await;
+        crate::verif_point!("phase:c:propagated", None, 0);
+        crate::verif_pause!("phase:c:propagated", None);
+        crate::verif_pause!("in.commit.propagated", None);
 
         engine.submit_write_buffer(transaction);
+        crate::verif_point!("phase:c:submitted", None, 0);
     }
 }
 
@@ -260,6 +271,7 @@ impl<C: Config> InputSession<C> {
         let query_id = QueryID::new::<Q>(query_hash);
 
         let mut snapshot = self.engine.get_exclusive_snapshot(query_hash).await;
+        crate::verif_pause!("in.set.snap", Some(&query_id));
 
         let query_value_fingerprint = self.engine.hash(&new_value);
 
@@ -287,11 +299,13 @@ impl<C: Config> InputSession<C> {
         let dirty_batch = self.dirty_batch.clone();
 
         async move {
+            crate::verif_pause!("in.set.g.start", Some(&query_id));
             if set_input_result == SetInputResult::Updated {
                 dirty_batch.write().await.push_back(query_id);
             }
 
             let mut transaction = transaction.write().await;
+            crate::verif_pause!("in.set.g.locked", Some(&query_id));
 
             let Some((write_buffer, _guard)) = transaction.as_mut() else {
                 panic!("InputSession transaction has already been committed");
@@ -454,6 +468,7 @@ impl<C: Config> InputSession<C> {
 
                 for query_hash in chunk.iter().copied() {
                     let query_id = QueryID::new::<Q>(query_hash);
+                    crate::verif_pause!("in.ref.item", Some(&query_id));
 
                     let query = engine.get_query_input::<Q>(&query_hash).await;
 
@@ -507,8 +522,10 @@ impl<C: Config> InputSession<C> {
         let transaction = self.transaction.clone();
 
         async move {
+            crate::verif_pause!("in.ref.g.start", None);
             let mut dirty_batch = dirty_batch.write().await;
             let mut transaction = transaction.write().await;
+            crate::verif_pause!("in.ref.g.locked", None);
 
             let Some((transaction, _guard)) = transaction.as_mut() else {
                 panic!("InputSession transaction has already been committed");
